@@ -271,6 +271,18 @@ fn after_call(s: &mut Sess, op: &Op, call: &crate::sess::Call, m: &mut Mon, ctx:
             }
         }
     }
+    // RUN starts with empty stacks: loops or frames abandoned by earlier activity do not pile up
+    // across runs (the one statement RUN itself executes can open at most one of each)
+    if matches!(op, Op::Line(t) if t.trim().eq_ignore_ascii_case("RUN")) && call.err().is_none() {
+        ctx.count("reach.stacks_checked_after_RUN");
+        if p.loops.len() > 1 || p.stack.len() > 1 {
+            return v(
+                "stale-stacks-after-run",
+                format!("loops={} frames={}", p.loops.len(), p.stack.len()),
+                format!("right after RUN there are {} open loops {:?} and {} frames: state abandoned before the run accumulates", p.loops.len(), p.loops.iter().map(|l| &l.symbol).collect::<Vec<_>>(), p.stack.len()),
+            );
+        }
+    }
     if call.state == St::Running && p.location.1 < p.line_tokens.len() {
         let t = &p.line_tokens[p.location.1];
         let tok = |k: usize| p.line_tokens.get(p.location.1 + k).map(|x| x.as_str());
